@@ -99,22 +99,31 @@ def split_scenarios(lines):
     return out
 
 
-def run_impl(binp, scns):
-    """[(lines, crash_text|None)] per scenario; a sanitizer abort is isolated to its scenario."""
-    text = "".join("\n".join(to_lines(s)) + "\n" for s in scns)
-    rc, out, err = C.sh([binp], inp=text.encode(), timeout=600,
-                        env={"ASAN_OPTIONS": "detect_leaks=0:abort_on_error=0", "UBSAN_OPTIONS": "print_stacktrace=1"})
-    if rc == 0:
-        per = split_scenarios(out.splitlines())
-        if len(per) == len(scns):
-            return [(p, None) for p in per]
-    if len(scns) == 1:
-        return [(out.splitlines(), "rc=%d %s" % (rc, sanitizer_summary(err)))]
+def run_impl(binp, scns, max_crashes=4):
+    """[(lines, crash_text|None) | None] per scenario.  A sanitizer abort ends the process: it is attributed to the
+    scenario that was running (the last one that printed its RESET line) and the rest is run in a new process.
+    After `max_crashes` aborts the remaining scenarios are not run (None)."""
     res = []
-    half = len(scns) // 2
-    for part in (scns[:half], scns[half:]):
-        if part:
-            res += run_impl(binp, part)
+    i = 0
+    crashes = 0
+    env = {"ASAN_OPTIONS": "detect_leaks=0:abort_on_error=0", "UBSAN_OPTIONS": "print_stacktrace=1"}
+    while i < len(scns):
+        part = scns[i:]
+        text = "".join("\n".join(to_lines(s)) + "\n" for s in part)
+        rc, out, err = C.sh([binp], inp=text.encode(), timeout=600, env=env)
+        per = split_scenarios(out.splitlines())
+        if rc == 0 and len(per) == len(part):
+            res += [(p, None) for p in per]
+            break
+        k = min(max(len(per) - 1, 0), len(part) - 1)
+        res += [(p, None) for p in per[:k]]
+        why = "rc=%d %s" % (rc, sanitizer_summary(err)) if rc != 0 else "harness printed %d scenarios for %d scripts" % (len(per), len(part))
+        res.append((per[k] if len(per) > k else [], why))
+        crashes += 1
+        i += k + 1
+        if crashes >= max_crashes:
+            res += [None] * (len(scns) - i)
+            break
     return res
 
 
@@ -125,9 +134,9 @@ def sanitizer_summary(err):
     return head + " | " + " <- ".join("%s %s" % (f, os.path.basename(w)) for f, w in frames)
 
 
-def run_model(scns):
+def run_model(scns, args=()):
     text = "".join("\n".join(to_lines(s)) + "\n" for s in scns)
-    per = split_scenarios(C.run_drv("evloop", text))
+    per = split_scenarios(C.run_drv("evloop", text, args=args))
     if len(per) != len(scns):
         raise RuntimeError("drv_evloop produced %d scenarios for %d scripts" % (len(per), len(scns)))
     return per
@@ -509,17 +518,21 @@ def random_scenario(r):
 EXH_MASKS = [IN, OUT, IN | OUT, ERR, IN | HUP]
 
 
-def alphabet(n, me, full):
-    """Answers for a callback of io_event `me` in a batch over ids 1..n."""
+def alphabet(n, me, level):
+    """Answers for a callback of io_event `me` in a batch over ids 1..n.
+    level 2 (full):    {C,R,A} x {nothing, remove self, remove any other, remove+re-add self, remove+re-add any other, stop}
+    level 1 (medium):  {C,R,A} x {nothing, remove self, remove any other}
+    level 0 (reduced): {C} x {nothing, remove self, remove any other} + {R, R with remove self, A}"""
     others = [i for i in range(1, n + 1) if i != me]
     acts = [[], [("-", me)]] + [[("-", o)] for o in others]
-    if full:
+    if level >= 2:
         acts += [[("-", me), ("+", me)]] + [[("-", o), ("+", o)] for o in others] + [[("S",)]]
+    if level >= 1:
         return [(ret, a) for ret in "CRA" for a in acts]
     return [("C", a) for a in acts] + [("R", []), ("R", [("-", me)]), ("A", [])]
 
 
-def exhaustive_for_masks(n, masks, full, maxev):
+def exhaustive_for_masks(n, masks, level, maxev):
     """All scenarios of the family for one mask tuple."""
     base = reg(*range(1, n + 1)) + [("wait", [(i + 1, masks[i]) for i in range(n)])]
     out = []
@@ -531,7 +544,7 @@ def exhaustive_for_masks(n, masks, full, maxev):
             ref_sim(ops, maxev, strict=True)
             out.append(ops)
         except Need as nd:
-            for r, a in alphabet(n, nd.ctx["self"], full):
+            for r, a in alphabet(n, nd.ctx["self"], level):
                 stack.append(ans + [(r, a)])
     return out
 
@@ -555,6 +568,8 @@ def first_diff(a, b):
 def judge(binp, scns, maxev):
     """Run a list of scenarios on both sides.  Returns a summary dict with counts and the failures."""
     impl = run_impl(binp, scns)
+    scns = [s for s, r in zip(scns, impl) if r is not None]
+    impl = [r for r in impl if r is not None]
     model = run_model(scns)
     res = {"n": len(scns), "callbacks": 0, "removes": 0, "adds": 0, "hist": {}, "prop_fail": [], "diff": [],
            "lines": 0}
@@ -582,10 +597,10 @@ def work(task):
         lo, hi = payload
         scns = [random_scenario(C.rng("evloop", i)) for i in range(lo, hi)]
     elif kind == "exh":
-        n, tuples, full = payload
+        n, tuples, level = payload
         scns = []
         for t in tuples:
-            scns += exhaustive_for_masks(n, t, full, maxev)
+            scns += exhaustive_for_masks(n, t, level, maxev)
     else:
         raise ValueError(kind)
     tot = None
@@ -600,7 +615,7 @@ def work(task):
                 tot["hist"][k] = tot["hist"].get(k, 0) + v
             tot["prop_fail"] += r["prop_fail"]
             tot["diff"] += r["diff"]
-        if len(tot["prop_fail"]) > 20 and len(tot["diff"]) > 20:
+        if len(tot["prop_fail"]) >= 3:
             break
     if tot is None:
         tot = {"n": 0, "callbacks": 0, "removes": 0, "adds": 0, "hist": {}, "prop_fail": [], "diff": [], "lines": 0}
@@ -673,7 +688,7 @@ def shrink(binp, ops, maxev, pred, budget=400):
 
 
 def run_one(binp, ops, maxev):
-    (il, crash), = run_impl(binp, [ops])
+    (il, crash), = run_impl(binp, [ops], max_crashes=1)
     ml, = run_model([ops])
     fails, _ = monitor(ops, il, crash, maxev)
     return il, ml, crash, fails
@@ -713,20 +728,20 @@ def _run(ctx, out, binp, t0):
 
     quick = not ctx.thorough
     directed = corpus()
-    n_random = 6000 if quick else 60000
-    exh_plan = [(1, True), (2, True)] if quick else [(1, True), (2, True), (3, False)]
+    n_random = 20000 if quick else 300000
+    exh_plan = [(1, 2), (2, 2), (3, 0)] if quick else [(1, 2), (2, 2), (3, 1)]
 
     tasks = [("list", binp, maxev, [ops for _, ops in directed])]
-    step = 1000 if quick else 2500
+    step = 2000 if quick else 10000
     for lo in range(0, n_random, step):
         tasks.append(("random", binp, maxev, (lo, min(n_random, lo + step))))
-    for n, full in exh_plan:
+    for n, level in exh_plan:
         tuples = mask_tuples(n)
         per = 1 if n >= 2 else len(tuples)
         if n == 3:
-            per = 2
+            per = 5
         for i in range(0, len(tuples), per):
-            tasks.append(("exh", binp, maxev, (n, tuples[i:i + per], full)))
+            tasks.append(("exh", binp, maxev, (n, tuples[i:i + per], level)))
 
     tot = {"n": 0, "callbacks": 0, "removes": 0, "adds": 0, "lines": 0, "hist": {}, "prop_fail": [], "diff": []}
     per_kind = {}
@@ -752,10 +767,16 @@ def _run(ctx, out, binp, t0):
     cov["evloop_exhaustive_space"] = (
         "one batch of n registered io_events (ids 1..n in array order), n <= %d, masks per entry in %s, every callback that "
         "happens answered by every member of the alphabet: n <= 2: {C,R,A} x {nothing, remove self, remove any other, "
-        "remove+re-add self, remove+re-add any other, clear go_ahead}; n = 3: {C} x {nothing, remove self, remove any other} "
-        "+ {R, R with remove self, A}" % (max(n for n, _ in exh_plan), ["%x" % m for m in EXH_MASKS]))
+        "remove+re-add self, remove+re-add any other, clear go_ahead}; n = 3: %s"
+        % (max(n for n, _ in exh_plan), ["%x" % m for m in EXH_MASKS],
+           "{C} x {nothing, remove self, remove any other} + {R, R with remove self, A}" if quick
+           else "{C,R,A} x {nothing, remove self, remove any other}"))
     cov["evloop_samples"] = [" ; ".join(to_lines(ops)[1:]) for _, ops in directed[:4]]
     cov["evloop_directed_names"] = [n for n, _ in directed]
+    # sensitivity: the model of the code BEFORE commit 676ccd4 (no nulling) must be told apart from the current code
+    legacy = run_model([ops for _, ops in directed], args=("legacy",))
+    now = run_model([ops for _, ops in directed])
+    cov["evloop_legacy_model_told_apart_on"] = [n for (n, _), a, b in zip(directed, legacy, now) if a != b]
     if "Python reference of the dispatcher semantics (vlib/evloop_tie.py: ref_sim) judges the implementation trace" not in out.assumptions:
         out.assumptions.append("evloop: the kernel is scripted (epoll_wait reports only descriptors in the interest list, at most "
                                "maxevents, in the scripted order; epoll_ctl ADD fails on EEXIST or when scripted); callbacks are "
